@@ -4,6 +4,7 @@ import (
 	"fmt"
 	"go/token"
 	"go/types"
+	"sort"
 	"strings"
 
 	"golang.org/x/tools/go/ssa"
@@ -295,7 +296,9 @@ func (f *Frame) invoke(i *ssa.Call, c *ssa.CallCommon, recv Val, args []Val, rea
 		fn *ssa.Function
 	}
 	var cands []cand
-	for _, k := range u.boxedOrd {
+	bk := append([]string{}, u.boxedOrd...)
+	sort.Strings(bk)
+	for _, k := range bk {
 		t := u.boxed[k]
 		if !types.Implements(t, it) {
 			continue
@@ -362,6 +365,9 @@ func (f *Frame) applyContract(callee *ssa.Function, ct *FuncContract, args []Val
 	vc := f.vc
 	entry := h.clone()
 	ctx := &SpecCtx{f: f, fn: callee, params: args, heap: entry, old: entry, binds: map[string]Val{}, pkg: pkgOf(callee)}
+	for _, l := range ct.Lets {
+		ctx.binds[l.Name] = ctx.eval(l.E)
+	}
 	for k, rq := range ct.Requires {
 		t := ctx.evalBool(rq.E)
 		label := rq.Label
@@ -370,9 +376,6 @@ func (f *Frame) applyContract(callee *ssa.Function, ct *FuncContract, args []Val
 		}
 		name := f.callPath + vc.siteName("pre."+label+"@call "+callee.Name())
 		vc.oblige(name, "pre", implies(reach, t), f.props, f.where(pos), "requires "+rq.Src+" of "+ct.Key)
-	}
-	for _, l := range ct.Lets {
-		ctx.binds[l.Name] = ctx.eval(l.E)
 	}
 	if ct.NoReturn {
 		return f.freshVal("noret", rt, h), "false"
